@@ -347,6 +347,9 @@ func checkObj(t *testing.T, c ObjCase) (v harness.Verdict) {
 		if m.Kind == "field" {
 			v.Class(o.applyField(c.Kind, m))
 		} else {
+			if in, err := o.refInput(c.Kind); err == nil {
+				o.p.msg = in // mutations that re-sign do so over the object as it stands now
+			}
 			v.Class("mut:" + applyMut(&o.p, m))
 		}
 	}
